@@ -726,8 +726,11 @@ func langCode(s string) int64 {
 	return v
 }
 
-func variantOf(v int) gohlslib.MuxerVariant {
-	switch v {
+func variantOf(h *history) gohlslib.MuxerVariant {
+	if h.VariantUnset && h.Variant == 3 {
+		return 0
+	}
+	switch h.Variant {
 	case 1:
 		return gohlslib.MuxerVariantMPEGTS
 	case 2:
@@ -802,7 +805,7 @@ func runImpl(h *history, dir string) (res *runResult) {
 	tracks := mkTracks(h)
 	m := &gohlslib.Muxer{
 		Tracks:             tracks,
-		Variant:            variantOf(h.Variant),
+		Variant:            variantOf(h),
 		SegmentCount:       h.SegCount,
 		SegmentMinDuration: time.Duration(h.SegMin),
 		PartMinDuration:    time.Duration(h.PartMin),
